@@ -832,9 +832,174 @@ Qed.
 Theorem i64_never_firstn : forall D k, i64_never_in_key_position D -> i64_never_in_key_position (firstn k D).
 Proof. intros D k H. rewrite firstn_chop. apply i64_never_chop; [lia|exact H]. Qed.
 
+(* ------------------------------------------------------------------ the data of a state is a suffix of the input *)
+(* so that [pos D s] below is a position in D: s_data s = skipn (pos D s) D *)
+Lemma skipn_skipn' : forall {A} n m (l : list A), skipn m (skipn n l) = skipn (n + m) l.
+Proof.
+  induction n; intros m l; [reflexivity|]. destruct l; cbn [skipn plus].
+  - now rewrite skipn_nil.
+  - apply IHn.
+Qed.
+
+Definition suf {A} (X : bytes -> outcome (A * bytes)) : Prop :=
+  forall d v d', X d = Ok (v, d') -> exists n, d' = skipn n d.
+Definition sufS (X : bytes -> outcome st) : Prop :=
+  forall d s', X d = Ok s' -> exists n, s_data s' = skipn n d.
+
+Lemma suf_ext : forall {A} (X Y : bytes -> outcome (A * bytes)), (forall d, X d = Y d) -> suf X -> suf Y.
+Proof. intros A X Y E H d v d' HY. rewrite <- E in HY. eauto. Qed.
+
+Lemma suf_gs : forall {A} n (f : bytes -> A),
+  suf (fun d => match get_split n d with Some (h, r) => Ok (f h, r) | None => Err E_LexEof end).
+Proof.
+  intros A n f d v d' H. unfold get_split in H. destruct (Nat.leb n (length d)); [|discriminate].
+  inversion H; subst. eauto.
+Qed.
+
+Lemma suf_gs_pair : forall n, suf (fun d => match get_split n d with Some p => Ok p | None => Err E_LexEof end).
+Proof. intro n. eapply suf_ext; [|apply (suf_gs n (fun h => h))]. intro d. cbv beta. destruct (get_split n d) as [[h r]|]; reflexivity. Qed.
+
+Lemma suf_ret : forall {A} (v : A), suf (fun d => Ok (v, d)).
+Proof. intros A v d v' d' H. inversion H; subst. exists 0. reflexivity. Qed.
+
+Lemma suf_nok : forall {A} (o : outcome (A * bytes)), is_ok o = false -> suf (fun _ => o).
+Proof. intros A o H d v d' E. rewrite E in H. discriminate. Qed.
+
+Lemma suf_bind : forall {A B} (X : bytes -> outcome (A * bytes)) (G : A * bytes -> outcome (B * bytes)),
+  suf X -> (forall a, suf (fun d => G (a, d))) -> suf (fun d => obind (X d) G).
+Proof.
+  intros A B X G HX HG d v d' H. cbv beta in H. destruct (X d) as [[a d1]| | | |] eqn:E; try discriminate. cbn [obind] in H.
+  destruct (HX _ _ _ E) as [n1 ->]. destruct (HG a _ v d' H) as [n2 ->]. exists (n1 + n2). apply skipn_skipn'.
+Qed.
+
+Lemma suf_map : forall {A B} (f : A -> B) (X : bytes -> outcome (A * bytes)),
+  suf X -> suf (fun d => omap (fun p => (f (fst p), snd p)) (X d)).
+Proof. intros A B f X HX. unfold omap. apply suf_bind; auto. intros a. cbn [fst snd]. apply suf_ret. Qed.
+
+Lemma suf_read_id : suf read_id. Proof. exact (suf_gs 2 (le_word 2)). Qed.
+Lemma suf_read_u32 : suf read_u32. Proof. exact (suf_gs 4 (le_word 4)). Qed.
+
+Lemma suf_read_bool : suf read_bool.
+Proof.
+  eapply suf_ext; [|apply (suf_gs 1 (fun h => match h with b :: _ => negb (N.eqb b 0) | [] => true end))].
+  intros [|b r]; reflexivity.
+Qed.
+
+Lemma suf_read_string : suf read_string.
+Proof.
+  eapply suf_ext; [|apply (suf_bind (fun d => match get_split 2 d with Some p => Ok p | None => Err E_LexEof end)
+                             (fun p => match get_split (N.to_nat (le_word 2 (fst p))) (snd p) with Some q => Ok q | None => Err E_LexEof end))].
+  - intro d. unfold read_string. destruct (get_split 2 d) as [[h r]|]; [|reflexivity]. cbn [obind fst snd].
+    unfold get_split. destruct (Nat.leb (N.to_nat (le_word 2 h)) (length r)); reflexivity.
+  - apply suf_gs_pair.
+  - intro a. cbn [fst snd]. apply suf_gs_pair.
+Qed.
+
+Lemma suf_read_rgb : suf read_rgb.
+Proof.
+  unfold read_rgb.
+  repeat (apply suf_bind; [first [apply suf_read_id | apply suf_read_u32]|intro; cbv beta iota]).
+  repeat match goal with |- suf (fun _ => if ?c then _ else _) => destruct c end;
+    try (apply suf_nok; reflexivity); try apply suf_ret.
+  repeat (apply suf_bind; [first [apply suf_read_id | apply suf_read_u32]|intro; cbv beta iota]).
+  repeat match goal with |- suf (fun _ => if ?c then _ else _) => destruct c end;
+    try (apply suf_nok; reflexivity); try apply suf_ret.
+Qed.
+
+Lemma suf_read_scalar : forall k, suf (read_scalar k).
+Proof.
+  destruct k; unfold read_scalar; apply suf_map;
+    first [exact (suf_gs 4 (le_word 4)) | exact (suf_gs 8 (le_word 8))
+          | exact (suf_gs 4 (fun h => to_signed 32 (le_word 4 h))) | exact (suf_gs 8 (fun h => to_signed 64 (le_word 8 h)))
+          | apply suf_read_bool | apply suf_read_string | exact (suf_gs_pair 4) | exact (suf_gs_pair 8) | apply suf_read_rgb].
+Qed.
+
+Lemma sufS_ext : forall (X Y : bytes -> outcome st), (forall d, X d = Y d) -> sufS X -> sufS Y.
+Proof. intros X Y E H d s' HY. rewrite <- E in HY. eauto. Qed.
+
+Lemma sufS_ret : forall ps par t, sufS (fun d => Ok (mkst d ps par t)).
+Proof. intros ps par t d s' H. inversion H; subst. exists 0. reflexivity. Qed.
+
+Lemma sufS_nok : forall (o : outcome st), is_ok o = false -> sufS (fun _ => o).
+Proof. intros o H d s' E. rewrite E in H. discriminate. Qed.
+
+Lemma sufS_bind : forall {A} (X : bytes -> outcome (A * bytes)) (G : A * bytes -> outcome st),
+  suf X -> (forall a, sufS (fun d => G (a, d))) -> sufS (fun d => obind (X d) G).
+Proof.
+  intros A X G HX HG d s' H. cbv beta in H. destruct (X d) as [[a d1]| | | |] eqn:E; try discriminate. cbn [obind] in H.
+  destruct (HX _ _ _ E) as [n1 ->]. destruct (HG a _ s' H) as [n2 ->]. exists (n1 + n2). apply skipn_skipn'.
+Qed.
+
+Lemma sufS_scalar_arm : forall k ps par t, sufS (fun d => scalar_arm k d ps par t).
+Proof.
+  intros. unfold scalar_arm. apply sufS_bind; [apply suf_read_scalar|]. intro a. cbv beta iota.
+  rewrite next_state_ok. cbn [obind]. apply sufS_ret.
+Qed.
+
+Lemma sufS_token_arm : forall ps par t id,
+  sufS (fun d => do ps' <- next_state ps; Ok (mkst d ps' par (push t (TToken id)))).
+Proof. intros. rewrite next_state_ok. cbn [obind]. apply sufS_ret. Qed.
+
+Lemma sufS_slow : forall id ps par t, sufS (fun d => slow false d id ps par t).
+Proof.
+  intros id ps0 par t0. unfold slow.
+  destruct (match ps0 with ObjectToArray => do t' <- mixed_insert2 t0; Ok (ArrayValueMixed, t') | _ => Ok (ps0, t0) end)
+    as [[ps t]| | | |]; cbn [obind]; try (apply sufS_nok; reflexivity).
+  destruct (classify id); try apply sufS_scalar_arm; try apply sufS_token_arm.
+  - eapply sufS_ext; [|apply (sufS_scalar_arm KI32 ps par t)].
+    intro d. cbv beta. destruct (scalar_arm KI32 d ps par t); reflexivity.
+  - destruct (negb (is_key ps)); [apply sufS_ret|]. destruct t; [apply sufS_nok; reflexivity|].
+    apply sufS_bind; [apply suf_read_id|]. intro a. cbv beta iota.
+    destruct (N.eqb a L_CLOSE); [apply sufS_ret|apply sufS_nok; reflexivity].
+  - destruct (match ps with KeyValueSeparator => mixed_insert1 t | ObjectValue => Err E_Syntax | _ => Ok t end)
+      as [t1| | | |]; cbn [obind]; try (apply sufS_nok; reflexivity).
+    destruct (push_end par t1) as [[r t']| | | |]; cbn [obind]; try (apply sufS_nok; reflexivity). apply sufS_ret.
+  - destruct ps; try (apply sufS_nok; reflexivity); try apply sufS_ret.
+    + destruct (pop t) as [[t1 last]|]; [|apply sufS_nok; reflexivity].
+      destruct (is_array_or_end last); [apply sufS_nok; reflexivity|].
+      destruct (only_empties par t1); [|apply sufS_ret].
+      destruct (set_parent_to_object par t1); cbn [obind]; try (apply sufS_nok; reflexivity). apply sufS_ret.
+    + destruct (set_parent_to_object par t); cbn [obind]; try (apply sufS_nok; reflexivity). apply sufS_ret.
+  - destruct ps; try apply sufS_token_arm.
+    apply sufS_bind; [apply suf_read_scalar|]. intro a. cbv beta iota. apply sufS_ret.
+Qed.
+
+Lemma get_split_skipn : forall n d h r, get_split n d = Some (h, r) -> r = skipn n d.
+Proof. intros n d h r H. unfold get_split in H. destruct (Nat.leb n (length d)); [|discriminate]. congruence. Qed.
+
+Lemma iter_suffix : forall s s', iter false false s = Continue s' -> exists n, s_data s' = skipn n (s_data s).
+Proof.
+  intros s s' H. destruct (get_split 2 (s_data s)) as [[h d]|] eqn:Eg.
+  - rewrite (iter_ref_unfold _ _ _ Eg) in H.
+    destruct (slow false d (le_word 2 h) (s_ps s) (s_par s) (s_tape s)) as [s1| | | |] eqn:Es; try discriminate.
+    inversion H; subst s1. destruct (sufS_slow _ _ _ _ _ _ Es) as [n E].
+    apply get_split_skipn in Eg. exists (2 + n). rewrite E, Eg. apply skipn_skipn'.
+  - unfold iter in H. rewrite Eg in H. discriminate.
+Qed.
+
+Lemma runs_suffix : forall s s', runs s s' -> exists n, s_data s' = skipn n (s_data s).
+Proof.
+  induction 1; [exists 0; reflexivity|]. destruct (iter_suffix _ _ H) as [n1 E1]. destruct IHruns as [n2 E2].
+  exists (n1 + n2). rewrite E2, E1. apply skipn_skipn'.
+Qed.
+
 (* ------------------------------------------------------------------ prefixes; transfer to any parser with the same observations *)
 (* number of bytes of D the whole run has consumed when it stands in s *)
 Definition pos (D : bytes) (s : st) : nat := length D - length (s_data s).
+
+(* [pos D s] is a position in D: what the run has not consumed yet is the rest of D from there on,
+   and the tape of a top-level key position is the parse of the bytes before it *)
+Theorem runs_data_is_rest : forall D s, runs (init D) s ->
+  s_data s = skipn (pos D s) D /\ D = firstn (pos D s) D ++ s_data s /\ pos D s <= length D.
+Proof.
+  intros D s H. destruct (runs_suffix _ _ H) as [n E]. cbn [init s_data] in E. unfold pos.
+  assert (Hs : s_data s = skipn (length D - length (s_data s)) D).
+  { rewrite E at 2. rewrite skipn_length. destruct (le_lt_dec n (length D)).
+    - replace (length D - (length D - n)) with n by lia. exact E.
+    - rewrite E. replace (length D - n) with 0 by lia. rewrite Nat.sub_0_r, skipn_all.
+      apply skipn_all2. lia. }
+  split; [exact Hs|]. split; [|lia]. rewrite Hs at 2. symmetry. apply firstn_skipn.
+Qed.
 
 Lemma obs_ok_inv : forall (x y : outcome tape) t, obs x = obs y -> y = Ok t -> x = Ok t.
 Proof. intros x y t H ->. destruct x; cbn in H; try discriminate. now inversion H. Qed.
